@@ -21,7 +21,7 @@ pub fn prop() -> HistProp {
         cases_quick: 6000,
         cases_thorough: 150_000,
         nontrivial: |s, c| s.lower_only_mutations >= 1 && (c.cfg.overlay_layers() >= 3 || c.cfg.nesting() >= 2),
-        rule: "overlays of 2..4 pre-populated layers (Mem/Phys/altroot/nested overlay as layer), typed histories incl. timestamp setters; every top-level layer is wrapped in a recorder: after each op no mutating trait call (create_*, append_file, remove_*, set_*_time, copy/move) and no handle write reached a layer with index>=1, pure observers (and the snapshot that follows every step) issued no mutating call to any layer, and a deep snapshot (types, bytes, created+modified times) of every lower layer taken through its own root is unchanged; non-trivial = >=1 mutating op on an entry that exists only in a lower layer, in a stack with >=3 layers or a nested adapter; PLUS a directed battery: a lower-only file of a boundary / large size (up to 512 KiB) and 3..7 calls from {append, overwrite, copy, move, remove, re-create, setters, read} on it and on its copies, same recorder and deep-snapshot oracle",
+        rule: "overlays of 2..4 pre-populated layers (Mem/Phys/altroot/nested overlay as layer), typed histories incl. timestamp setters; every top-level layer is wrapped in a recorder: after each op no mutating trait call (create_*, append_file, remove_*, set_*_time, copy/move) and no handle write reached a layer with index>=1, pure observers (and the snapshot that follows every step) issued no mutating call to any layer, and a deep snapshot (types, bytes, created+modified times) of every lower layer taken through its own root is unchanged; non-trivial = >=1 mutating op on an entry that exists only in a lower layer, in a stack with >=3 layers or a nested adapter; PLUS a directed battery: a lower-only file of a boundary / large size (up to 512 KiB) and 3..7 calls from {append, overwrite, copy, move, remove, re-create, setters, read} on it and on its copies, same recorder and deep-snapshot oracle; AND write sessions that outlive a removal (remove_file / remove_dir_all / move_file) and an optional re-creation of their path, followed by every pure observer on the path, its directory and the root: no observer may issue a mutating call, nothing may reach a lower layer",
         floors: vec![("distinct_nontrivial", 50)],
         assumptions: vec![
             "access time of lower-layer entries is excluded from the deep snapshot (reading updates it in MemoryFS and in the OS)",
@@ -136,8 +136,132 @@ fn test_copyup(case: &CopyUpCase, st: &mut Stats, counting: bool) -> CaseResult 
     Ok(())
 }
 
+// ---------------------------------------------------------------------------------------------
+// observers after a write session that outlived a removal of its file
+// ---------------------------------------------------------------------------------------------
+
+#[derive(Clone, Debug)]
+pub struct SessCase {
+    pub cfg: Cfg,
+    pub data: DataSpec,
+    pub layer: u8,
+    pub append: bool,
+    pub removal: u8,
+    pub recreate: u8,
+}
+
+fn sess_strategy() -> impl Strategy<Value = SessCase> {
+    (overlay_cfg_strategy(2, 2), data_strategy(), any::<u8>(), any::<bool>(), 0u8..3, 0u8..3).prop_map(|(cfg, data, layer, append, removal, recreate)| SessCase { cfg, data, layer, append, removal, recreate })
+}
+
+fn sess_json(c: &SessCase) -> Value {
+    json!({"kind": "c08-session", "cfg": c.cfg.to_json(), "data": data_to_json(&c.data), "layer": c.layer, "append": c.append, "removal": c.removal, "recreate": c.recreate})
+}
+
+fn test_sess(case: &SessCase, st: &mut Stats, counting: bool) -> CaseResult {
+    use crate::exec::{at, exec};
+    use crate::wrap::{Call, CallLog, RecFS};
+    use std::io::Write;
+    use std::sync::{Arc, Mutex};
+    let mut trace: Vec<String> = vec![];
+    let r = crate::util::guarded(|| -> Result<(), String> {
+        let n = case.cfg.overlay_layers().max(2);
+        let li = (case.layer as usize) % n;
+        let bytes = make_bytes(&case.data);
+        let prepop: Prepop = vec![(li, "/d/f".to_string(), Node::File(bytes.clone())), (n - 1, "/d/low".to_string(), Node::File(Arc::new(b"low".to_vec()))), (0, "/d/up".to_string(), Node::File(Arc::new(b"up".to_vec())))];
+        let log: CallLog = Arc::new(Mutex::new(vec![]));
+        let log2 = log.clone();
+        let built = build_with(&case.cfg, &prepop, &move |fs, i| vfs::VfsPath::new(RecFS { inner: fs, layer: i, log: log2.clone() }))?;
+        let root = built.root.clone();
+        let lowers: Vec<DeepSnap> = built.layers.iter().skip(1).map(deep_snapshot).collect();
+        let judge = |what: &str, observer: bool, trace: &[String]| -> Result<(), String> {
+            let calls: Vec<Call> = std::mem::take(&mut *log.lock().unwrap());
+            for c in &calls {
+                if c.mutating && c.layer >= 1 {
+                    return Err(format!("{}: mutating call {}('{}') reached layer {}", what, c.method, c.path, if c.layer == crate::wrap::OUTSIDE_LAYERS { "<outside every layer directory>".to_string() } else { c.layer.to_string() }));
+                }
+                if c.mutating && observer {
+                    return Err(format!("observer {}: issued the mutating call {}('{}') to layer {}", what, c.method, c.path, c.layer));
+                }
+            }
+            for (i, l) in built.layers.iter().skip(1).enumerate() {
+                if deep_snapshot(l) != lowers[i] {
+                    return Err(format!("{}: lower layer {} changed", what, i + 1));
+                }
+            }
+            let _ = trace;
+            Ok(())
+        };
+        let f = at(&root, "/d/f").map_err(|e| e.to_string())?;
+        let mut h = if case.append { f.append_file() } else { f.create_file() }.map_err(|e| format!("opening the session failed: {}", e))?;
+        let _ = h.write_all(b"session bytes");
+        trace.push(format!("{} handle on '/d/f' (layer {}) opened, 13 bytes written", if case.append { "append" } else { "create" }, li));
+        judge("opening the session", false, &trace)?;
+        let rm = match case.removal {
+            0 => Op::RemoveFile("/d/f".into()),
+            1 => Op::RemoveDirAll("/d".into()),
+            _ => Op::MoveFile("/d/f".into(), "/moved".into()),
+        };
+        let o = exec(&root, &rm);
+        trace.push(format!("{} -> {}", rm.render(), o.class_str()));
+        judge(&rm.render(), false, &trace)?;
+        match case.recreate {
+            1 => {
+                let o = exec(&root, &Op::CreateDirAll("/d/f".into()));
+                trace.push(format!("create_dir_all('/d/f') -> {}", o.class_str()));
+            }
+            2 => {
+                let o = exec(&root, &Op::CreateDirAll("/d".into()));
+                trace.push(format!("create_dir_all('/d') -> {}", o.class_str()));
+            }
+            _ => {}
+        }
+        judge("re-creation", false, &trace)?;
+        let _ = h.flush();
+        drop(h);
+        trace.push("session handle flushed and dropped".into());
+        judge("dropping the session handle", false, &trace)?;
+        // every pure observer, on the file, its directory, the move target and the root
+        for p in ["/d/f", "/d", "/moved", "", "/d/low", "/d/up"] {
+            for op in [Op::Exists(p.into()), Op::Metadata(p.into()), Op::IsFile(p.into()), Op::IsDir(p.into()), Op::ReadDir(p.into()), Op::Read(p.into()), Op::ReadToString(p.into()), Op::WalkDir(p.into())] {
+                let o = exec(&root, &op);
+                if let crate::exec::Outcome::Panic(m) = &o {
+                    return Err(format!("{} panicked: {}", op.render(), m));
+                }
+                trace.push(format!("{} -> {}", op.render(), o.class_str()));
+                judge(&op.render(), true, &trace)?;
+            }
+        }
+        Ok(())
+    });
+    let fail = |m: String| Failure { message: format!("stack {} | {}\n  trace:\n    {}", case.cfg.render(), m, trace.join("\n    ")), replay: sess_json(case) };
+    match r {
+        Err(p) => Err(fail(format!("PANIC: {}", p))),
+        Ok(Err(m)) => Err(fail(m)),
+        Ok(Ok(())) => {
+            if counting {
+                st.label("sessions_outliving_a_removal");
+                st.label_n("observer_calls_after_such_sessions", 48);
+                st.nontrivial.insert(crate::util::fnv_str(&format!("{:?}", case)));
+            }
+            Ok(())
+        }
+    }
+}
+
 pub fn run(ctx: &RunCtx) -> i32 {
-    prop().run_with(ctx, Some(&|ctx: &RunCtx| run_sharded(ctx, "copyup", ctx.tier.pick(2500, 60_000), copyup_strategy, test_copyup)))
+    prop().run_with(
+        ctx,
+        Some(&|ctx: &RunCtx| {
+            let (mut s, mut f) = run_sharded(ctx, "copyup", ctx.tier.pick(2500, 60_000), copyup_strategy, test_copyup);
+            if f.is_none() {
+                let (s2, f2) = run_sharded(ctx, "session", ctx.tier.pick(1500, 40_000), sess_strategy, test_sess);
+                s.merge(s2);
+                f = f2;
+            }
+            (s, f)
+        }),
+    )
 }
 
 pub fn replay(v: &Value) -> CaseResult {
@@ -145,6 +269,19 @@ pub fn replay(v: &Value) -> CaseResult {
         let case = copyup_from_json(v).ok_or_else(|| Failure { message: "unparsable C08 battery replay".into(), replay: v.clone() })?;
         let mut st = Stats::default();
         return test_copyup(&case, &mut st, false);
+    }
+    if v.get("kind").and_then(|k| k.as_str()) == Some("c08-session") {
+        let g = |k: &str| v.get(k).and_then(|x| x.as_u64()).unwrap_or(0) as u8;
+        let case = SessCase {
+            cfg: Cfg::from_json(v.get("cfg").unwrap_or(&Value::Null)).unwrap_or(Cfg::Ovl(vec![Cfg::Mem, Cfg::Mem])),
+            data: data_from_json(v.get("data").unwrap_or(&Value::Null)).unwrap_or(DataSpec { kind: 8, len: 3, seed: 0 }),
+            layer: g("layer"),
+            append: v.get("append").and_then(|x| x.as_bool()).unwrap_or(false),
+            removal: g("removal"),
+            recreate: g("recreate"),
+        };
+        let mut st = Stats::default();
+        return test_sess(&case, &mut st, false);
     }
     prop().replay(v)
 }
